@@ -40,7 +40,7 @@ Definition c12_known (c : term) : bool := false.
 Fixpoint count_recs (t : term) : nat :=
   match t with
   | TList (TStr tg :: rest) =>
-      (if str_eqb tg (lit "rec") then 1 else 0)%nat +
+      (if str_eqb tg (lit "rec") || str_eqb tg (lit "qrec") then 1 else 0)%nat +
       (fix go (l : list term) : nat := match l with [] => O | x :: r => (count_recs x + go r)%nat end) rest
   | _ => O
   end.
